@@ -518,6 +518,11 @@ class Normaliser:
                 return True
             if isinstance(n, ast.Assign) and len(n.targets) > 1:
                 return True
+            if isinstance(n, ast.Call) and isinstance(n.func, ast.Attribute) and n.func.attr in ('pack', 'unpack', 'unpack_from', 'pack_into') \
+                    and ast.unparse(n.func.value) != 'struct':
+                return True             # maybe a struct.Struct constant
+            if isinstance(n, ast.Call) and ast.unparse(n.func) in ('struct.Struct', 'Struct'):
+                return True
             if isinstance(n, ast.Name) and isinstance(n.ctx, ast.Load) and n.id.isupper() and len(n.id) > 3 \
                     and ('DAY' in n.id or 'EPOCH' in n.id or 'TIME' in n.id or 'DELTA' in n.id or 'SECOND' in n.id
                          or 'HOUR' in n.id or 'MINUTE' in n.id or 'PERIOD' in n.id):
@@ -560,8 +565,11 @@ class Normaliser:
             c5 = self._fold_table_comprehensions(fn, mod, cls)
             c5 = self._unroll_constant_tables(fn, mod, cls) or c5
             c5 = self._split_chained_assign(fn) or c5
+            c5 = self._struct_constants_to_calls(fn, mod, cls) or c5
+            c5 = self._struct_choice_split(fn) or c5
             c5 = self._thread_boolean_temp(fn) or c5
             c5 = self._thread_optional_result(fn) or c5
+            c5 = self._thread_result_or_error(fn, mod) or c5
             c5 = self._forward_ctor_fields(fn, mod) or c5
             c5 = self._sink_splat_user(fn) or c5
             c5 = self._inline_module_value_constants(fn, mod) or c5
@@ -1764,11 +1772,15 @@ class Normaliser:
                         and isinstance(st.targets[0], (ast.Tuple, ast.List))
                         and isinstance(st.value, (ast.Tuple, ast.List))
                         and len(st.targets[0].elts) == len(st.value.elts) and len(st.value.elts) > 1
-                        and all(isinstance(t, ast.Name) for t in st.targets[0].elts)
+                        and all(isinstance(t, ast.Name) or (isinstance(t, ast.Subscript) and isinstance(t.value, ast.Name)
+                                                            and isinstance(t.slice, ast.Constant))
+                                for t in st.targets[0].elts)
                         and not any(isinstance(v, ast.Starred) for v in st.value.elts)):
                     continue
-                tnames = {t.id for t in st.targets[0].elts}
-                if len(tnames) != len(st.targets[0].elts):
+                # d['a'], d['b'] = (x, y): the containers count as the names written
+                tnames = {t.id if isinstance(t, ast.Name) else t.value.id for t in st.targets[0].elts}
+                keys_ = [ast.unparse(t) for t in st.targets[0].elts]
+                if len(set(keys_)) != len(keys_):
                     continue
                 if any(isinstance(x, ast.Name) and x.id in tnames for v in st.value.elts for x in ast.walk(v)):
                     continue
@@ -2113,6 +2125,100 @@ class Normaliser:
                 break
         return changed
 
+    def _struct_constants_to_calls(self, fn: ast.AST, mod, cls) -> bool:
+        """`SIZE_FIELD = struct.Struct('>I')` at module or class level: `SIZE_FIELD.pack(x)` is
+        `struct.pack('>I', x)`, likewise unpack / unpack_from / calcsize - the spelling the rules read"""
+        consts: dict[str, ast.AST] = {}
+        for scope in (getattr(mod, 'body', []), getattr(cls, 'body', []) if cls is not None else []):
+            for st in scope:
+                tg = st.targets[0] if isinstance(st, ast.Assign) and len(st.targets) == 1 else (
+                    st.target if isinstance(st, ast.AnnAssign) and st.value is not None else None)
+                if isinstance(tg, ast.Name) and isinstance(st.value, ast.Call) and ast.unparse(st.value.func) in ('struct.Struct', 'Struct') \
+                        and len(st.value.args) == 1 and isinstance(st.value.args[0], ast.Constant):
+                    consts[tg.id] = st.value.args[0]
+        if not consts:
+            return False
+        changed = False
+        for c in ast.walk(fn):
+            if isinstance(c, ast.Call) and isinstance(c.func, ast.Attribute) and c.func.attr in ('pack', 'unpack', 'unpack_from', 'pack_into'):
+                recv = c.func.value
+                name = recv.id if isinstance(recv, ast.Name) else (
+                    recv.attr if isinstance(recv, ast.Attribute) and isinstance(recv.value, ast.Name)
+                    and recv.value.id in ('self', 'cls', 'clz') + ((cls.name,) if cls is not None else ()) else None)
+                if name in consts:
+                    c.func = ast.copy_location(ast.Attribute(value=ast.Name(id='struct', ctx=ast.Load()), attr=c.func.attr, ctx=ast.Load()), c.func)
+                    c.args = [clone(consts[name])] + c.args
+                    ast.fix_missing_locations(c)
+                    changed = True
+        return changed
+
+    def _struct_choice_split(self, fn: ast.AST) -> bool:
+        """`entry = struct.Struct('>I' if c else '>Q')` followed by a few statements that use `entry`
+        (`entry.unpack(src.read(entry.size))`, `entry.pack(x)`): one branch per format with the plain
+        struct.unpack / struct.pack calls and the size written out"""
+        import struct as _struct
+        changed = False
+        for blk in list(self._blocks(fn)):
+            for i, st in enumerate(blk):
+                def struct_of(s_):
+                    if isinstance(s_, ast.Assign) and len(s_.targets) == 1 and isinstance(s_.targets[0], ast.Name) \
+                            and isinstance(s_.value, ast.Call) and ast.unparse(s_.value.func) in ('struct.Struct', 'Struct') \
+                            and len(s_.value.args) == 1:
+                        return s_.targets[0].id, s_.value.args[0]
+                    return None
+                ife = None
+                got = struct_of(st)
+                if got is not None and isinstance(got[1], ast.IfExp) and isinstance(got[1].body, ast.Constant) \
+                        and isinstance(got[1].orelse, ast.Constant):
+                    v, ife = got
+                elif isinstance(st, ast.If) and len(st.body) == 1 and len(st.orelse) == 1:
+                    # the same after `x = f(a if c else b)` was written as if/else
+                    a_, b_ = struct_of(st.body[0]), struct_of(st.orelse[0])
+                    if a_ is not None and b_ is not None and a_[0] == b_[0] and isinstance(a_[1], ast.Constant) \
+                            and isinstance(b_[1], ast.Constant):
+                        v = a_[0]
+                        ife = ast.IfExp(test=st.test, body=a_[1], orelse=b_[1])
+                if ife is None:
+                    continue
+                users = [j for j in range(i + 1, len(blk)) if any(isinstance(x, ast.Name) and x.id == v for x in ast.walk(blk[j]))]
+                if not users or users[-1] - i > 4:
+                    continue
+                tail = blk[i + 1:users[-1] + 1]
+                outside = [x for x in ast.walk(fn) if isinstance(x, ast.Name) and x.id == v
+                           and not any(x is y for t_ in tail for y in ast.walk(t_))
+                           and not any(x is y for y in ast.walk(st))]
+                if outside:
+                    continue
+
+                def with_format(stmts, fmt: ast.Constant):
+                    out = clone(stmts)
+
+                    class T(ast.NodeTransformer):
+                        def visit_Call(self, node):
+                            self.generic_visit(node)
+                            if isinstance(node.func, ast.Attribute) and isinstance(node.func.value, ast.Name) \
+                                    and node.func.value.id == v and node.func.attr in ('pack', 'unpack', 'unpack_from', 'pack_into'):
+                                node.func = ast.Attribute(value=ast.Name(id='struct', ctx=ast.Load()), attr=node.func.attr, ctx=ast.Load())
+                                node.args = [clone(fmt)] + node.args
+                            return node
+
+                        def visit_Attribute(self, node):
+                            self.generic_visit(node)
+                            if isinstance(node.value, ast.Name) and node.value.id == v and node.attr == 'size':
+                                try:
+                                    return ast.Constant(value=_struct.calcsize(fmt.value))
+                                except Exception:
+                                    return node
+                            return node
+                    return [ast.fix_missing_locations(ast.copy_location(T().visit(s_), st)) for s_ in out]
+                new_if = ast.If(test=ife.test, body=with_format(tail, ife.body), orelse=with_format(tail, ife.orelse))
+                if any(isinstance(x, ast.Name) and x.id == v for b_ in (new_if.body + new_if.orelse) for x in ast.walk(b_)):
+                    continue            # the struct object is used in a way that was not written out
+                blk[i:users[-1] + 1] = [ast.fix_missing_locations(ast.copy_location(new_if, st))]
+                changed = True
+                break
+        return changed
+
     def _split_chained_assign(self, fn: ast.AST) -> bool:
         """`self.a = x = E` (one of the targets a local name): `x = E; self.a = x`"""
         changed = False
@@ -2198,6 +2304,98 @@ class Normaliser:
                     else:
                         part[-1:] = clone(b.body)
                 del blk[i + 1:i + 3]
+                changed = True
+                break
+        return changed
+
+    def _thread_result_or_error(self, fn: ast.AST, mod) -> bool:
+        """an if-chain (with try/except/else inside) whose every leaf ends with `t = Record(..)` - a NamedTuple or
+        dataclass of the same module - or `t = <call of something else>` (an error response), followed by
+        `if not isinstance(t, Record): <jump>` and optionally `a, b = t`: the jump moves into the leaves that
+        do not build the record, the unpacking into those that do (`a, b = (fields in declaration order)`).
+        This is what an inlined "find it or say why not" helper leaves behind."""
+        records = {c.name: c for c in getattr(mod, 'body', []) if isinstance(c, ast.ClassDef)
+                   and (any(ast.unparse(b).split('.')[-1] == 'NamedTuple' for b in c.bases)
+                        or any('dataclass' in ast.unparse(d) for d in c.decorator_list))}
+        if not records:
+            return False
+        changed = False
+        for blk in list(self._blocks(fn)):
+            for i in range(len(blk) - 1):
+                a, b = blk[i], blk[i + 1]
+                if not (isinstance(a, ast.If) and isinstance(b, ast.If) and not b.orelse):
+                    continue
+                test = b.test
+                if not (isinstance(test, ast.UnaryOp) and isinstance(test.op, ast.Not) and isinstance(test.operand, ast.Call)
+                        and ast.unparse(test.operand.func) == 'isinstance' and len(test.operand.args) == 2
+                        and isinstance(test.operand.args[0], ast.Name) and isinstance(test.operand.args[1], ast.Name)
+                        and test.operand.args[1].id in records):
+                    continue
+                if not (b.body and isinstance(b.body[-1], (ast.Return, ast.Raise, ast.Continue, ast.Break))):
+                    continue
+                t, rec = test.operand.args[0].id, records[test.operand.args[1].id]
+                fields = [x.target.id for x in rec.body if isinstance(x, ast.AnnAssign) and isinstance(x.target, ast.Name)]
+                unpack = blk[i + 2] if i + 2 < len(blk) and isinstance(blk[i + 2], ast.Assign) and len(blk[i + 2].targets) == 1 \
+                    and isinstance(blk[i + 2].targets[0], ast.Tuple) and isinstance(blk[i + 2].value, ast.Name) \
+                    and blk[i + 2].value.id == t and len(blk[i + 2].targets[0].elts) == len(fields) else None
+                loads = [x for x in ast.walk(fn) if isinstance(x, ast.Name) and x.id == t and isinstance(x.ctx, ast.Load)]
+                jump_reads = sum(1 for s_ in b.body for x in ast.walk(s_) if isinstance(x, ast.Name) and x.id == t)
+                if len(loads) != 1 + jump_reads + (1 if unpack is not None else 0):
+                    continue
+                leaves: list[list[ast.stmt]] = []
+
+                def collect(stmts: list[ast.stmt]) -> bool:
+                    if not stmts:
+                        return False
+                    last = stmts[-1]
+                    if isinstance(last, ast.If):
+                        return bool(last.orelse) and collect(last.body) and collect(last.orelse)
+                    if isinstance(last, ast.Try):
+                        if last.finalbody:
+                            return False
+                        tail_ = last.orelse if last.orelse else last.body
+                        return collect(tail_) and all(collect(h.body) for h in last.handlers)
+                    if isinstance(last, ast.Assign) and len(last.targets) == 1 and isinstance(last.targets[0], ast.Name) \
+                            and last.targets[0].id == t and isinstance(last.value, ast.Call):
+                        leaves.append(stmts)
+                        return True
+                    return False
+                if not (collect(a.body) and a.orelse and collect(a.orelse)) or not leaves:
+                    continue
+                stores = [x for x in ast.walk(fn) if isinstance(x, ast.Name) and x.id == t and isinstance(x.ctx, ast.Store)]
+                if len(stores) != len(leaves):
+                    continue
+                ok = True
+                plan = []
+                for part in leaves:
+                    call = part[-1].value
+                    fname = ast.unparse(call.func)
+                    if fname == rec.name:
+                        if any(isinstance(x, ast.Starred) for x in call.args) or any(k.arg is None for k in call.keywords):
+                            ok = False
+                            break
+                        actual = dict(zip(fields, call.args))
+                        actual.update({k.arg: k.value for k in call.keywords})
+                        if set(actual) != set(fields):
+                            ok = False
+                            break
+                        plan.append((part, [actual[f_] for f_ in fields]))
+                    elif '.' in fname and fname.split('.')[0] in ('flask', 'werkzeug') or fname in ('jsonify', 'jsonify_no_content'):
+                        plan.append((part, None))           # a library response object: not the record
+                    else:
+                        ok = False
+                        break
+                if not ok:
+                    continue
+                for part, vals in plan:
+                    if vals is None:
+                        # the jump, with the value it would have returned
+                        part.extend(clone(b.body))
+                    elif unpack is not None:
+                        part[-1] = ast.copy_location(ast.Assign(targets=[clone(unpack.targets[0])],
+                                                                value=ast.Tuple(elts=[clone(v_) for v_ in vals], ctx=ast.Load())), part[-1])
+                    ast.fix_missing_locations(part[-1])
+                del blk[i + 1:(i + 3 if unpack is not None else i + 2)]
                 changed = True
                 break
         return changed
